@@ -58,7 +58,9 @@ func c01DecideBudget(c *run.Ctx, src string, input any, budget, modelSteps int64
 		}
 	}
 	if diff != "" {
-		return run.Failf("%q on %s: %s", src, run.Clip(run.Canon(input)), diff)
+		f := run.Failf("%q on %s: %s", src, run.Clip(run.Canon(input)), diff)
+		f.Sig = c01NativeArgSig(q)
+		return f
 	}
 	if len(src) > 8 && (len(tr.Vals) > 0 || tr.End == run.EndError) {
 		c.Nontrivial(src + "\x00" + run.Canon(input))
@@ -228,19 +230,22 @@ var c01AltInputs = []any{
 	[]any{map[string]any{"a": "a", "b": []any{"z"}, "c": 1}, []any{map[string]any{"a": 1}}, []any{}, map[string]any{}, []any{nil, map[string]any{"a": 2}}},
 }
 
+// c01ScopePositions: every query position of the grammar (%Q is the position)
+var c01ScopePositions = []string{
+	"if %Q then 1 else 2 end", "if true then %Q else 2 end", "if false then 1 else %Q end", "if false then 1 elif %Q then 2 else 3 end", "if false then 1 elif true then %Q else 3 end", "if %Q then 1 end",
+	"[%Q]", "{a: (%Q)}", "{(%Q | tostring): 1}", "{\"k\\(%Q)\": 1}", ". as {(%Q | tostring): $x} | $x", ". as [$x] ?// {(%Q | tostring): $x} | $x", ". as {\"k\\(%Q)\": $x} | $x", ". as {$x, (%Q | tostring): [$y]} ?// $y | [$x, $y]",
+	"reduce (%Q) as $x (0; 1)", "reduce 1 as $x (%Q; .)", "reduce 1 as $x (0; %Q)", "foreach (%Q) as $x (0; 1)", "foreach 1 as $x (%Q; .)", "foreach 1 as $x (0; %Q)", "foreach 1 as $x (0; 1; %Q)",
+	".[%Q]?", ".[%Q:]?", ".[:%Q]?", "[.[(%Q | numbers)]?]", "\"s\\(%Q)\"", "@json \"j\\(%Q)\"", "@base64 \"\\(%Q)\"", "first(%Q)", "limit(1; %Q)", "def w(p): p; w(%Q)", "def w($p): $p; w(%Q)", "[range(%Q | numbers)]",
+	"try (%Q) catch .", "try error(\"e\") catch (%Q)", "(label $z | %Q)", "-(%Q | numbers)", "(%Q)", "(%Q)?", "(%Q) // 1", "null // (%Q)", "(%Q), 1", "1, (%Q)", "(%Q) + 1", "1 + (%Q | numbers)", "(%Q) and true", "true or (%Q)",
+	".a = (%Q)", ".a |= (%Q)", "(.a | %Q | select(false)) = 1", "path(%Q | empty)", "[.[]? | %Q]", "(%Q) as $x | $x", "(%Q) as [$x] ?// $x | $x", "getpath([%Q | strings])", "[limit(2; repeat(%Q))]", "isempty(%Q)", "[paths(%Q | false)]",
+	"input_line_number?, (%Q)", "$__loc__ | (%Q)", "[recurse(%Q | empty)]", "label $z | (%Q), break $z", "(%Q) | not", "with_entries(%Q | empty)?", "map(%Q)?", "[splits(%Q | strings)?]", "ltrimstr(%Q)", "has(%Q | strings)?", "select(%Q)", "(%Q) == 1",
+}
+
 // c01Scope: lexical scoping at every query position of the grammar. A definition, a binding or a label introduced
 // inside position %Q must be invisible to what follows the construct; what follows refers to an outer function /
 // variable / label of the same name.
 func c01Scope() []string {
-	positions := []string{
-		"if %Q then 1 else 2 end", "if true then %Q else 2 end", "if false then 1 else %Q end", "if false then 1 elif %Q then 2 else 3 end", "if false then 1 elif true then %Q else 3 end", "if %Q then 1 end",
-		"[%Q]", "{a: (%Q)}", "{(%Q | tostring): 1}", "{\"k\\(%Q)\": 1}", ". as {(%Q | tostring): $x} | $x", ". as [$x] ?// {(%Q | tostring): $x} | $x", ". as {\"k\\(%Q)\": $x} | $x", ". as {$x, (%Q | tostring): [$y]} ?// $y | [$x, $y]",
-		"reduce (%Q) as $x (0; 1)", "reduce 1 as $x (%Q; .)", "reduce 1 as $x (0; %Q)", "foreach (%Q) as $x (0; 1)", "foreach 1 as $x (%Q; .)", "foreach 1 as $x (0; %Q)", "foreach 1 as $x (0; 1; %Q)",
-		".[%Q]?", ".[%Q:]?", ".[:%Q]?", "[.[(%Q | numbers)]?]", "\"s\\(%Q)\"", "@json \"j\\(%Q)\"", "@base64 \"\\(%Q)\"", "first(%Q)", "limit(1; %Q)", "def w(p): p; w(%Q)", "def w($p): $p; w(%Q)", "[range(%Q | numbers)]",
-		"try (%Q) catch .", "try error(\"e\") catch (%Q)", "(label $z | %Q)", "-(%Q | numbers)", "(%Q)", "(%Q)?", "(%Q) // 1", "null // (%Q)", "(%Q), 1", "1, (%Q)", "(%Q) + 1", "1 + (%Q | numbers)", "(%Q) and true", "true or (%Q)",
-		".a = (%Q)", ".a |= (%Q)", "(.a | %Q | select(false)) = 1", "path(%Q | empty)", "[.[]? | %Q]", "(%Q) as $x | $x", "(%Q) as [$x] ?// $x | $x", "getpath([%Q | strings])", "[limit(2; repeat(%Q))]", "isempty(%Q)", "[paths(%Q | false)]",
-		"input_line_number?, (%Q)", "$__loc__ | (%Q)", "[recurse(%Q | empty)]", "label $z | (%Q), break $z", "(%Q) | not", "with_entries(%Q | empty)?", "map(%Q)?", "[splits(%Q | strings)?]", "ltrimstr(%Q)", "has(%Q | strings)?", "select(%Q)", "(%Q) == 1",
-	}
+	positions := c01ScopePositions
 	type probe struct{ outer, inner, after string }
 	probes := []probe{
 		{"def f: \"outer\"; ", "def f: \"inner\"; f", "f"},
